@@ -68,6 +68,9 @@ def _has_manual_impl(items, name):
     return n >= 2
 
 
+CUSTOM = set()
+
+
 def inventory():
     """-> (obligations, keys of the types whose harnesses can be built)"""
     obs, ok = [], []
@@ -105,11 +108,25 @@ def inventory():
                                       bad[0]["name"], bad[0]["ty"])))
             continue
         fattrs = sorted({a.replace(" ", "") for f in st["fields"] for a in f.get("attrs", []) if "serde" in a})
+        # value-dependent customisation: the derive's default code treats every value alike, so a counterexample over the
+        # superset "all finite words" transfers to reachable states; custom code may legitimately reject or normalise
+        # unreachable states, so there a refutation must be confirmed on reachable states (the corpus) to count
+        custom = (not derived) or any(re.search(r"serde\((?!with=\"BigArray\"\))", a) and
+                                      re.search(r"with|skip_serializing_if|from|into|bound|getter|remote", a) for a in fattrs) \
+            or any("serde(" in a.replace(" ", "") and re.search(r"from|into|remote|bound", a) for a in st["attrs"])
+        if custom:
+            CUSTOM.add(key)
         obs.append(Obligation(name, where, "structural", DISCHARGED, 0.0,
                               "Serialize + Deserialize %s; %d fields, all 64-bit scalars / arrays / nested estimator structs; serde field attributes: %s" % (
                                   "derived" if derived else "implemented by hand", len(st["fields"]), ", ".join(fattrs) or "none"),
                               text="struct %s { %s }" % (sname, "; ".join("%s %s: %s" % (" ".join(f.get("attrs", [])), f["name"], f["ty"]) for f in st["fields"]))))
         ok.append(key)
+    # a struct that nests a customised one inherits the caveat
+    nests = {"variance": ["mean"], "skewness": ["variance", "mean"], "kurtosis": ["skewness", "variance", "mean"],
+             "weighted_mean_with_error": ["weighted_mean", "variance", "mean"]}
+    for k, inner in nests.items():
+        if any(i in CUSTOM for i in inner):
+            CUSTOM.add(k)
     return obs, ok
 
 
@@ -163,12 +180,22 @@ KEY2TY = {"mean": "Mean", "variance": "Variance", "skewness": "Skewness", "kurto
           "covariance": "Covariance", "histogram10": "Histogram10", "histogram3": "H3"}
 
 
-def _ops(ty, lo, hi):
+# three streams: ordinary scale with long decimal expansions; spread of a few 2^-40 around 1 (tiny sums of squares);
+# magnitudes around 1e-8 (tiny everything).  Weights / second coordinates are taken from WS.
+STREAMS = {
+    "mixed": XS,
+    "tiny_spread": [1.0 + d * 2.0 ** -40 for d in (3, -1, 4, 1, -5, 9, 2, -6)],
+    "tiny_scale": [1.1e-8, 2.3e-8, 1.7e-8, 3.1e-8, 2.9e-8, 1.3e-8],
+}
+QSTREAM = [float((7 * i * i + 3 * i) % 41) + (0.25 if i % 3 == 0 else 0.0) for i in range(26)]     # for the dense Quantile corpus
+
+
+def _ops(ty, xs, lo, hi):
     if ty in ("WeightedMean", "WeightedMeanWithError", "Covariance"):
-        return [["add2", XS[i], WS[i]] for i in range(lo, hi)]
+        return [["add2", xs[i], WS[i]] for i in range(lo, hi)]
     if ty in ("Histogram10", "H3"):
-        return [["add", abs(XS[i]) % 7.0] for i in range(lo, hi)]
-    return [["add", XS[i]] for i in range(lo, hi)]
+        return [["add", abs(xs[i]) % 7.0] for i in range(lo, hi)]
+    return [["add", xs[i]] for i in range(lo, hi)]
 
 
 def _ctor(ty):
@@ -183,24 +210,36 @@ def _ctor(ty):
 
 def corpus(types, tier):
     """-> list of (type, label, reference program, checkpointed program)"""
-    n = len(XS)
     out = []
     for ty in types:
         acc = ACC[ty]
-        ref = {"type": ty, "ctor": _ctor(ty), "ops": _ops(ty, 0, n), "observe": acc}
         first = 1 if ty in ("Min", "Max") else 0      # the empty Min / Max holds an infinity: outside "fields are finite"
-        for k in range(first, n + 1):
-            out.append((ty, "checkpoint after %d of %d observations" % (k, n), ref,
-                        {"type": ty, "ctor": _ctor(ty), "ops": _ops(ty, 0, k) + [["serde_roundtrip"]] + _ops(ty, k, n), "observe": acc}))
-        if ty in ("Quantile",):
-            continue                                 # no merge
-        for cut in ((3, 9) if tier == "quick" else range(1, n)):
-            other = {"type": ty, "ctor": _ctor(ty), "ops": _ops(ty, cut, n)}
-            other_rt = {"type": ty, "ctor": _ctor(ty), "ops": _ops(ty, cut, n) + [["serde_roundtrip"]]}
-            out.append((ty, "checkpoints of both operands before and of the result after a merge at %d" % cut,
-                        {"type": ty, "ctor": _ctor(ty), "ops": _ops(ty, 0, cut) + [["merge", other]] + _ops(ty, 0, 2), "observe": acc},
-                        {"type": ty, "ctor": _ctor(ty), "ops": _ops(ty, 0, cut) + [["serde_roundtrip"], ["merge", other_rt], ["serde_roundtrip"]] + _ops(ty, 0, 2),
-                         "observe": acc}))
+        for sname, xs in STREAMS.items():
+            n = len(xs)
+            ref = {"type": ty, "ctor": _ctor(ty), "ops": _ops(ty, xs, 0, n), "observe": acc}
+            for k in range(first, n + 1):
+                out.append((ty, "stream %s: checkpoint after %d of %d observations" % (sname, k, n), ref,
+                            {"type": ty, "ctor": _ctor(ty), "ops": _ops(ty, xs, 0, k) + [["serde_roundtrip"]] + _ops(ty, xs, k, n), "observe": acc}))
+            if ty in ("Quantile",):
+                continue                                 # no merge
+            cuts = ((3, 9) if n > 9 else (2,)) if tier == "quick" else range(1, n)
+            for cut in cuts:
+                other = {"type": ty, "ctor": _ctor(ty), "ops": _ops(ty, xs, cut, n)}
+                other_rt = {"type": ty, "ctor": _ctor(ty), "ops": _ops(ty, xs, cut, n) + [["serde_roundtrip"]]}
+                out.append((ty, "stream %s: checkpoints of both operands before and of the result after a merge at %d" % (sname, cut),
+                            {"type": ty, "ctor": _ctor(ty), "ops": _ops(ty, xs, 0, cut) + [["merge", other]] + _ops(ty, xs, 0, 2), "observe": acc},
+                            {"type": ty, "ctor": _ctor(ty), "ops": _ops(ty, xs, 0, cut) + [["serde_roundtrip"], ["merge", other_rt], ["serde_roundtrip"]] + _ops(ty, xs, 0, 2),
+                             "observe": acc}))
+        if ty == "Quantile":
+            # the marker bookkeeping (m, dm) matters only for the continuation: every checkpoint position x every later
+            # observation point of a 26-value stream
+            n = len(QSTREAM)
+            step = 1 if tier == "thorough" else 2
+            for end in range(6, n + 1, step):
+                ref = {"type": ty, "ctor": _ctor(ty), "ops": _ops(ty, QSTREAM, 0, end), "observe": acc}
+                for k in range(0, end, step):
+                    out.append((ty, "dense: checkpoint after %d, observed after %d observations" % (k, end), ref,
+                                {"type": ty, "ctor": _ctor(ty), "ops": _ops(ty, QSTREAM, 0, k) + [["serde_roundtrip"]] + _ops(ty, QSTREAM, k, end), "observe": acc}))
     return out
 
 
@@ -219,13 +258,20 @@ def run_corpus(types, tier):
     """-> (per-type first difference or None, per-type count, error or None)"""
     import replay
     cases = corpus(types, tier)
-    progs = []
-    for _, _, a, b in cases:
-        progs += [a, b]
-    res = replay.run_programs(progs, timeout=1200)
+    import json as _json
+    progs, index = [], {}
+
+    def slot(pr):
+        key = _json.dumps(pr, sort_keys=True)
+        if key not in index:
+            index[key] = len(progs)
+            progs.append(pr)
+        return index[key]
+    slots = [(slot(a), slot(b)) for _, _, a, b in cases]
+    res = replay.run_programs(progs, timeout=1800)
     diff, count = {}, {}
     for i, (ty, label, a, b) in enumerate(cases):
-        ra, rb = res[2 * i], res[2 * i + 1]
+        ra, rb = res[slots[i][0]], res[slots[i][1]]
         if ra.get("error") or rb.get("error"):
             return diff, count, (ra.get("error") or rb.get("error")) + " " + (ra.get("raw") or rb.get("raw") or "")[-600:]
         count[ty] = count.get(ty, 0) + 1
@@ -253,8 +299,9 @@ def bounded_obligations(keys, tier):
     for k in keys:
         ty = KEY2TY[k]
         name = "C18.%s.serde_json_checkpoints" % k
-        bound = "bounded: one %d-value stream, checkpoint at every position, %s merge cuts; real serde_json 1.x with float_roundtrip" % (
-            len(XS), "2" if tier == "quick" else "all")
+        bound = "bounded: %d fixed streams (%s values), checkpoint at every position, %s merge cuts%s; real serde_json 1.x with float_roundtrip" % (
+            len(STREAMS), "/".join(str(len(v)) for v in STREAMS.values()), "1-2" if tier == "quick" else "all",
+            "; dense checkpoint x observation grid on a 26-value stream" if ty == "Quantile" else "")
         f = "serde_json::{to_string, from_str} o derive(Serialize, Deserialize) on %s" % ty
         if err:
             obs.append(Obligation(name, f, "native-replay", UNDECIDED, 0.0, "replay build/run failed: %s" % err[:400], bounded=bound, kind="bounded"))
@@ -285,6 +332,9 @@ def confirm(ob):
     return None
 
 
+confirm.max_calls = 1000      # a lookup of the corpus result, no search
+
+
 def run(tier, seed):
     obs, keys = inventory()
     obs += purity()
@@ -306,11 +356,16 @@ def run(tier, seed):
                                  "(lossless token format, %s)" % ("fields matched by name" if mode == "map" else "fields by position")))
     job.append(LIB, '\n#[cfg(kani)]\npub(crate) mod verif_kani18 {\n    #![allow(unused)]\n    use super::*;\n    include!("%s");\n    %s\n}\n' % (
         os.path.join(KDIR, "serde_roundtrip.rs"), "\n    ".join(inst)))
-    if keys:
-        obs += job.run()
+    k_obs = job.run() if keys else []
     b_obs, diff = bounded_obligations(keys, tier)
     _DIFF.update(diff)
-    obs += b_obs
+    for o in k_obs:
+        key = next((k for k in keys if o.name.startswith("C18.%s." % k)), None)
+        if o.status == REFUTED and key in CUSTOM and KEY2TY[key] not in diff:
+            o.status = UNDECIDED
+            o.detail = ("counterexample over ALL finite state words, but this type has hand-written / value-dependent (de)serialisation logic that may "
+                        "legitimately reject or normalise unreachable states, and the reachable-state corpus shows no difference: not a verdict. " + (o.detail or ""))[:600]
+    obs += k_obs + b_obs
     meta = {
         "level": "proof",
         "checker_cmd": "cargo kani --no-default-features --features std,serde (scratch copy + contracts/kani/{serde_fmt,serde_roundtrip}.rs); "
